@@ -118,7 +118,7 @@ func rewriteRange(rs *ast.RangeStmt, site string) ast.Stmt {
 	body := &ast.BlockStmt{List: append(pre, rs.Body)} // the original body keeps its own scope
 	loop := &ast.RangeStmt{
 		Key: id("_"), Value: id("vmapK"), Tok: token.DEFINE,
-		X: &ast.CallExpr{Fun: &ast.SelectorExpr{X: id("vmap"), Sel: id("Keys")}, Args: []ast.Expr{id("vmapM"), &ast.BasicLit{Kind: token.STRING, Value: fmt.Sprintf("%q", site)}}},
+		X:    &ast.CallExpr{Fun: &ast.SelectorExpr{X: id("vmap"), Sel: id("Keys")}, Args: []ast.Expr{id("vmapM"), &ast.BasicLit{Kind: token.STRING, Value: fmt.Sprintf("%q", site)}}},
 		Body: body,
 	}
 	return &ast.BlockStmt{List: []ast.Stmt{
@@ -140,10 +140,10 @@ func MapRangeRewritesCached() (func() map[string][]byte, func() []string, error)
 		}
 	}
 	return func() map[string][]byte {
-			load()
-			if err != nil {
-				return nil
-			}
-			return files
-		}, func() []string { load(); return sites }, nil
+		load()
+		if err != nil {
+			return nil
+		}
+		return files
+	}, func() []string { load(); return sites }, nil
 }
